@@ -10,6 +10,8 @@ from ansi_string import AnsiString, AnsiStr
 LEVEL = 'model_checking'
 ESC = '\x1b'
 WS = ' \t\n\r\v\f'
+# every code point str.split(None) treats as whitespace (membership forks symbolically; str.isspace() would realise the character)
+WSALL = ''.join(chr(i) for i in range(0x3001) if chr(i).isspace())
 SIG = (SIGMA[0], SIGMA[2], SIGMA[1])        # red, bold, blue
 
 
@@ -49,6 +51,9 @@ def h_split(t: str, sep: Optional[str], k: int, n: int, kk: int, s1: int, r1: in
         return None
     if sep is not None and (sep == '' or len(sep) > 2):
         return None
+    k = pick(k, -2, n + 1)               # CrossHair realises maxsplit: enumerated, not abstracted
+    if k is None:
+        return None
     s = styled(t, n, kk, s1, r1, s2, r2)
     if s is None:
         return None
@@ -68,14 +73,14 @@ def h_split(t: str, sep: Optional[str], k: int, n: int, kk: int, s1: int, r1: in
     elif not right:
         pos = 0
         for e in exp:
-            while pos < n and t[pos].isspace():
+            while pos < n and t[pos] in WSALL:
                 pos += 1
             offs.append(pos)
             pos += len(e)
     else:
         pos = n
         for e in reversed(exp):
-            while pos > 0 and t[pos - 1].isspace():
+            while pos > 0 and t[pos - 1] in WSALL:
                 pos -= 1
             pos -= len(e)
             offs.insert(0, pos)
@@ -285,7 +290,7 @@ def h_replace(t: str, old: str, n: int, cnt: int, k: int, s1: int, r1: int, s2: 
 
 BOUNDS = {
     'quick': 'base text: any string (all Unicode, no ESC) of length <=3 styled by <=2 apply steps over (red, bold, blue) on canonical ranges; '
-             'separators/patterns any strings of length 1..2 (or None); maxsplit/count ALL integers; splitlines over {LF, CR, x, y}^<=4; '
+             'separators/patterns any strings of length 1..2 (or None); count ALL integers, maxsplit -2..n+1; splitlines over {LF, CR, x, y}^<=4; '
              'case methods over a 6-char palette; assign_str to lengths 0..n+2; replace with 5 replacement forms',
     'thorough': 'texts up to length 4',
 }
@@ -301,23 +306,20 @@ def obligations(tier):
     ns = (1, 2, 3) if q else (1, 2, 3, 4)
     for m in (0, 1):
         for n in ns:
-            for kk in (1, 2) if n >= 2 else (1,):
-                if kk == 2 and n > 3:
-                    continue
-                f = dict(n=n, kk=kk, m=m)
-                if kk == 1:
-                    f.update(z1)
-                need = ('split-happened', 'nonuniform') if n >= 2 else ()
-                if n >= 3 and kk == 1:
-                    need += ('change-point-inside-piece', 'piece-text-repeats')
-                if kk == 2:
-                    for s1 in range(3):
-                        obs.append(Ob('split/m%d/n%d/k2/s%d' % (m, n, s1), h_split, dict(f, s1=s1), need=need, budget=1500, per_path=40,
-                                      bounds='text length %d, 2 apply steps' % n, kinds=KINDS))
-                else:
-                    obs.append(Ob('split/m%d/n%d/k1' % (m, n), h_split, f, need=need, budget=1500, per_path=40,
-                                  bounds='text length %d, 1 apply step' % n, kinds=KINDS))
-    for n in (2, 3, 4):
+            need = ('split-happened', 'nonuniform') if n >= 2 else ()
+            if n <= 2:
+                obs.append(Ob('split/m%d/n%d/k1' % (m, n), h_split, dict(n=n, kk=1, m=m, **z1), need=need, budget=1500, per_path=40,
+                              bounds='text length %d, 1 apply step' % n, kinds=KINDS))
+            else:
+                for r1 in range(len(ranges(n))):
+                    obs.append(Ob('split/m%d/n%d/k1/r%d' % (m, n, r1), h_split, dict(n=n, kk=1, m=m, r1=r1, **z1), need=('split-happened',),
+                                  budget=1500 if q else 4000, per_path=40, bounds='text length %d, 1 apply step on range #%d' % (n, r1), kinds=KINDS))
+            if n == 2 or (n == 3 and not q):
+                for s1 in range(3):
+                    for r1 in range(len(ranges(n))):
+                        obs.append(Ob('split/m%d/n%d/k2/s%d/r%d' % (m, n, s1, r1), h_split, dict(n=n, kk=2, m=m, s1=s1, r1=r1), need=('split-happened',),
+                                      budget=1500 if q else 4000, per_path=40, bounds='text length %d, 2 apply steps' % n, kinds=KINDS))
+    for n in (2, 3) if q else (2, 3, 4):
         f = dict(n=n, k=1, **z1)
         for j, nm in enumerate(('p1', 'p2', 'p3', 'p4')):
             if j >= n:
@@ -332,12 +334,16 @@ def obligations(tier):
         for n in ns:
             obs.append(Ob('strip/m%d/n%d' % (m, n), h_strip, dict(n=n, k=1, m=m, **z1), need=('shortened',), budget=900,
                           bounds='text length %d' % n, kinds=KINDS))
-    for n in (1, 2, 3):
+    for n in (1, 2) if q else (1, 2, 3):
         f = dict(n=n, k=1, **z1)
         for j, nm in enumerate(('p1', 'p2', 'p3')):
             if j >= n:
                 f[nm] = 0
-        obs.append(Ob('case/n%d' % n, h_case, f, need=('case',), budget=900, bounds='%d palette chars' % n, kinds=KINDS))
+        if n == 3:
+            for p1 in range(6):
+                obs.append(Ob('case/n3/p%d' % p1, h_case, dict(f, p1=p1), need=('case',), budget=1500, bounds='3 palette chars', kinds=KINDS))
+        else:
+            obs.append(Ob('case/n%d' % n, h_case, f, need=('case',), budget=900, bounds='%d palette chars' % n, kinds=KINDS))
     for n in (0, 1, 2, 3):
         obs.append(Ob('assign/n%d' % n, h_assign, dict(n=n, k=2 if n else 0, **({} if n else dict(s1=0, r1=0, **z1))),
                       need=('longer',) + (('shorter',) if n else ()), budget=600,
